@@ -315,7 +315,7 @@ void RouterSession::checkNudging(const char *when) {
             for (size_t k = 1; k < disp[i].size() && !on; k++) if (ptSegDist(cp, disp[i][k - 1], disp[i][k]) < 1e-6) on = true;
             bool onRaw = false;
             for (size_t k = 1; k < raw[i].size() && !onRaw; k++) if (ptSegDist(cp, raw[i][k - 1], raw[i][k]) < 1e-6) onRaw = true;
-            if (!on && onRaw && !c.detachedByDelete) violate("C10", "checkpoints", "nudging-moved-route-off-a-checkpoint", fmt("conn %d checkpoint (%g,%g) after %s", ids[i], cp.x, cp.y, when));
+            if (!on && onRaw && !c.detachedByDelete) violate("C10", "checkpoints", std::string("nudging-moved-route-off-a-checkpoint") + (attached ? ":end-segments-may-be-nudged" : ""), fmt("conn %d checkpoint (%g,%g) after %s", ids[i], cp.x, cp.y, when));
         }
     }
     auto coord = [](Pt p, int dim) { return dim ? p.y : p.x; };
@@ -346,6 +346,9 @@ void RouterSession::checkNudging(const char *when) {
                 if (hi - lo <= 1e-9) continue;
                 double sep = std::fabs(coord(a0, dim) - coord(b0, dim));
                 bool aEnd = p == 1 || p == A.size() - 1, bEnd = q == 1 || q == B.size() - 1;
+                // a segment that carries one of its connector's checkpoints is as immovable as an end segment
+                for (auto &cpt : ci.checkpoints) if (ptSegDist(cpt, a0, a1) < 1e-6) aEnd = true;
+                for (auto &cpt : cj.checkpoints) if (ptSegDist(cpt, b0, b1) < 1e-6) bEnd = true;
                 // was this pair a shared path in the raw routes?
                 bool rawShared = false, rawKnown = raw[i].size() == A.size() && raw[j].size() == B.size();
                 if (rawKnown) {
@@ -399,6 +402,17 @@ void RouterSession::checkNudging(const char *when) {
                             if (ptSegDist(cj.e[ee].pt, a0, a1) < 1e-9 && !samePt(cj.e[ee].pt, a0) && !samePt(cj.e[ee].pt, a1)) endOn = true;
                         }
                         if (endOn) sig += ":an-end-point-lies-inside-the-partner-segment";
+                        else {
+                            // classifier (KF-C10-d): the end point of a THIRD connector lies on the overlapping stretch (its fixed end
+                            // segment occupies the line the two were centred on)
+                            bool third = false;
+                            for (int t = 0; t < m && !third; t++) if (t != i && t != j) for (int ee = 0; ee < 2; ee++) {
+                                Pt q = conns[ids[t]].e[ee].pt;
+                                if (conns[ids[t]].e[ee].kind == 0 && std::fabs(coord(q, dim) - c0) < 1e-9 && coord(q, o) >= lo - 1e-9 && coord(q, o) <= hi + 1e-9) third = true;
+                            }
+                            if (third) sig += ":a-third-connectors-end-point-lies-on-the-shared-line";
+                            else if (!ci.checkpoints.empty() || !cj.checkpoints.empty()) sig += ":a-connector-of-the-pair-has-checkpoints";      // KF-C10-g
+                        }
                     }      // created by the centring / unifying pre-processing, then not removed
                     std::string ra, rb; for (auto &qq : raw[i]) ra += fmt("(%g,%g)", qq.x, qq.y); for (auto &qq : raw[j]) rb += fmt("(%g,%g)", qq.x, qq.y);
                     std::string da, db; for (auto &qq : A) da += fmt("(%g,%g)", qq.x, qq.y); for (auto &qq : B) db += fmt("(%g,%g)", qq.x, qq.y);
@@ -639,6 +653,20 @@ static Json genNudgeSession(Rng &r, const std::string &tier) {
         Pt a = freept(), b = freept();
         Json o = Json::obj(); o.set("op", "addConn"); o.set("id", i);
         Json ea = Json::obj(); ea.set("pt", ptJ(a)); Json eb = Json::obj(); eb.set("pt", ptJ(b)); o.set("src", ea); o.set("dst", eb); o.set("ctor", (long)r.below(2));
+        if (r.chance(0.25)) {
+            // a checkpoint on the row or column of the destination, so that it lies in the interior of a route segment
+            // (nudging must keep it on the route: it limits how far the segment before it may be shifted)
+            // on the side the route comes from (a checkpoint beyond the destination makes the route double back on itself)
+            bool row = r.chance(0.5); double span = row ? a.x - b.x : a.y - b.y;
+            double d = (double)r.range(4, std::max(4, (int)((std::fabs(span) - 30) / 10))) * 10 * (span > 0 ? 1 : -1);      // anywhere between the destination and the source's coordinate
+            Pt cp = row ? Pt{b.x + d, b.y} : Pt{b.x, b.y + d};
+            bool ok = std::fabs(d) < std::fabs(span) - 20;
+            for (auto &ob : rs) if (cp.x >= ob.x - 15 - buf && cp.x <= ob.x + ob.w + 15 + buf && cp.y >= ob.y - 15 - buf && cp.y <= ob.y + ob.h + 15 + buf) ok = false;
+            // nothing between the checkpoint and the destination either
+            for (auto &ob : rs) { double lo = std::min(row ? cp.x : cp.y, row ? b.x : b.y), hi = std::max(row ? cp.x : cp.y, row ? b.x : b.y); double c0 = row ? b.y : b.x;
+                if ((row ? ob.y - 15 - buf : ob.x - 15 - buf) <= c0 && c0 <= (row ? ob.y + ob.h + 15 + buf : ob.x + ob.w + 15 + buf) && (row ? ob.x + ob.w : ob.y + ob.h) >= lo && (row ? ob.x : ob.y) <= hi) ok = false; }
+            if (ok) { Json cps = Json::arr(); cps.push(ptJ(cp)); o.set("checkpoints", cps); }
+        }
         ops.push(o);
     }
     { Json o = Json::obj(); o.set("op", "process"); ops.push(o); }
